@@ -106,7 +106,7 @@ def ev(e, env):
     if k == "|":
         return any(ev(x, env) for x in e[1])
     if k == "^":
-        return sum(1 for x in e[1] if ev(x, env)) == 1
+        return sum(1 for x in e[1] if ev(x, env)) == 1     # operands under ^ are generated pairwise distinct boolean variables
     if k == "rel":
         a, b = ev(e[2], env), ev(e[3], env)
         return {"<": a < b, "<=": a <= b, "==": a == b, ">=": a >= b, ">": a > b, "!=": a != b}[e[1]]
@@ -135,9 +135,10 @@ def is_const(e):
 
 
 class Gen:
-    def __init__(self, rng, reals, bools, hidden, allow_neq=True, small=True):
+    def __init__(self, rng, reals, bools, hidden, allow_neq=True, small=True, core=False):
         self.rng, self.reals, self.bools, self.h = rng, reals, bools, hidden
-        self.allow_neq = allow_neq
+        self.allow_neq = allow_neq and not core
+        self.core = core      # core fragment: relations, &, |, negation of boolean variables only
 
     def konst(self, depth=0):
         r = self.rng
@@ -184,13 +185,25 @@ class Gen:
             return ("rel", r.choice(ops), self.arith(depth + 1), self.arith(depth + 1))
         if x < 0.5:
             return ("&", [self.boolean(depth + 1) for _ in range(r.randint(2, 3))])
-        if x < 0.65:
+        if x < 0.65 or (self.core and x < 0.86):
+            if self.core and x >= 0.78 and self.bools:
+                return ("!", ("bv", r.choice(self.bools)))
             return ("|", [self.boolean(depth + 1) for _ in range(r.randint(2, 3))])
+        if self.core:
+            a = ("bv", r.choice(self.bools)) if self.bools and r.random() < 0.5 else ("rel", r.choice(["<", "<=", ">=", ">"]), self.arith(depth + 1), self.arith(depth + 1))
+            return ("->", a, self.boolean(depth + 1))
         if x < 0.72:
-            return ("^", [self.boolean(depth + 1) for _ in range(r.randint(2, 3))])
+            if len(self.bools) >= 2:
+                k = r.randint(2, min(3, len(self.bools)))
+                return ("^", [("bv", b) for b in r.sample(self.bools, k)])
+            return ("&", [self.boolean(depth + 1) for _ in range(2)])
         if x < 0.82:
             return ("!", self.boolean(depth + 1))
-        if x < 0.9:
+        if x < 0.9 or (self.core and x < 0.93):
+            if self.core:
+                # implication with an atomic antecedent (its negation is a literal the search decides)
+                a = ("bv", r.choice(self.bools)) if self.bools and r.random() < 0.5 else ("rel", r.choice(["<", "<=", ">=", ">"]), self.arith(depth + 1), self.arith(depth + 1))
+                return ("->", a, self.boolean(depth + 1))
             return ("->", self.boolean(depth + 1), self.boolean(depth + 1))
         if x < 0.95:
             return ("beq", self.boolean(depth + 1), self.boolean(depth + 1))
@@ -198,17 +211,20 @@ class Gen:
 
     def true_constraint(self):
         """a random boolean expression that holds under the hidden assignment"""
-        for _ in range(20):
+        for _ in range(60):
             b = self.boolean()
             try:
                 v = ev(b, self.h)
             except ZeroDivisionError:
                 continue
-            return b if v else ("!", b)
+            if v:
+                return b
+            if not self.core:
+                return ("!", b)
         return ("t",)
 
 
-def constraint_program(rng, n_real=None, n_bool=None, n_cons=None, allow_neq=True, pin=True):
+def constraint_program(rng, n_real=None, n_bool=None, n_cons=None, allow_neq=True, pin=True, core=False):
     """returns (text, meta) with meta = {"reals": [...], "bools": [...], "constraints": [expr...], "pins": {name: expr}, "hidden": {...}}"""
     n_real = rng.randint(1, 5) if n_real is None else n_real
     n_bool = rng.randint(0, 3) if n_bool is None else n_bool
@@ -216,7 +232,7 @@ def constraint_program(rng, n_real=None, n_bool=None, n_cons=None, allow_neq=Tru
     bools = [f"b{i}" for i in range(n_bool)]
     hidden = {x: F(rng.randint(-8, 12), rng.choice([1, 1, 2, 4])) for x in reals}
     hidden.update({b: rng.random() < 0.5 for b in bools})
-    g = Gen(rng, reals, bools, hidden, allow_neq=allow_neq)
+    g = Gen(rng, reals, bools, hidden, allow_neq=allow_neq, core=core)
     lines = [f"real {x};" for x in reals] + [f"bool {b};" for b in bools]
     pins = {}
     if pin:
